@@ -46,6 +46,11 @@ static struct cstl_bintree *BT(void) { return &T[cur].t; }
 
 static void tree_init(struct cstl_rbtree *t)
 {
+#ifdef USE_INITIALIZER   /* the CSTL_*_INITIALIZER macros instead of the init functions */
+    if (RB) { struct cstl_rbtree x = CSTL_RBTREE_INITIALIZER(struct el, n, cmp, E_PRIV); *t = x; }
+    else { struct cstl_bintree x = CSTL_BINTREE_INITIALIZER(struct el, n.n, cmp, E_PRIV); memset(t, 0, sizeof *t); t->t = x; }
+    return;
+#endif
     if (RB) cstl_rbtree_init(t, cmp, E_PRIV, offsetof(struct el, n));
     else { memset(t, 0, sizeof *t); cstl_bintree_init(&t->t, cmp, E_PRIV, offsetof(struct el, n.n)); }
 }
